@@ -119,13 +119,39 @@ def run(rep, tier, seed):
             o.status = 'fail-region' if bad else ('exact-pass' if o.exactq else 'tolerant-pass')
             o.detail = '; '.join(bad[:4])
         outs[c.cid] = o
+    # the verified certificate (coq/theories/Cert04.v) on the implementation's own result, exact runs that were assembled by
+    # the operation (not handed back by the bounding-box shortcut)
+    from . import engine
+    cl, cc = [], []
+    for c in cases:
+        o = outs[c.cid]
+        if o.impl[0] == 'ok' and o.exactq and not boxes_disjoint(c):
+            es = [(p, q, 1) for (p, q) in c13.input_edges(c.lhs)] + [(p, q, 0) for (p, q) in c13.input_edges(c.rhs)]
+            etok = ' '.join('%s %s %s %s %d' % (fmt.hx(p[0], c.prec), fmt.hx(p[1], c.prec), fmt.hx(q[0], c.prec), fmt.hx(q[1], c.prec), s)
+                            for (p, q, s) in es)
+            mtok = ' '.join([str(len(o.impl[1]))] + [fmt.enc_polygon(pl, c.prec) for pl in o.impl[1]])
+            cl.append('cert04 %s %d 1 %d %s %s' % (c.cid, c.prec, len(es), etok, mtok))
+            cc.append(c)
+    cres = engine.run_lines(engine.MODEL, cl, timeout=1800)
+    ncert = {'evaluated': len(cl), 'accepted': 0, 'rejected': 0}
+    for c, ans in zip(cc, cres):
+        v = engine.payload(ans).strip() if ans.startswith('cert04') else '?'
+        if v == '1':
+            ncert['accepted'] += 1
+        else:
+            ncert['rejected'] += 1
+            o = outs[c.cid]
+            if o.status != 'fail-region':
+                o.status = 'fail-region'
+                o.detail = 'the verified certificate Cert04.cert04 rejects the result (%s)' % v
+    rep.coverage['cert04'] = ncert
     cnt, fails, corr_bad = c01.judge(rep, PID, outs)
     rep.log('outcomes', cnt)
     c01.fill_coverage(rep, cases, outs, cnt, 'Every edge of every result ring must lie on an input edge and every vertex must be an input '
                       'vertex or the intersection of two input edges: exactly (rational arithmetic) when the float run denotes the exact-'
                       'arithmetic run (exact-pass), within 1e-9 x magnitude otherwise (tolerant-pass); rings closed, >= 3 distinct vertices, '
                       'non-zero exact area, counter-clockwise unless handed back by the bounding-box shortcut.')
-    rep.coverage['trusted_base'] = c01.TRUSTED + ['the provenance test is exact rational Python code; exactness of intersection points at the exact '
+    rep.coverage['trusted_base'] = c01.TRUSTED + ['the provenance test on exact runs is the Coq-verified certificate Cert04.cert04 (doubled by exact rational Python code, which alone judges rounded runs); exactness of intersection points at the exact '
                                                  'instance and the clamp are Coq theorems (Properties/C04.v)']
 
     def refail(c):
